@@ -359,7 +359,9 @@ def events(times, amplitudes=None, f=DiracDelta, g=Symbol('a')):
     if amplitudes is None:
         amplitudes = itertools.cycle([1])
     for time, a in zip(times, amplitudes):
-        e = e + g.subs(asymb, a) * f(T-time)
+        # sympy.Add, not ``+``: a Term plus itself is itself (Term.__add__), so
+        # two coincident events whose summand reduces to ``t`` would count once
+        e = sympy.Add(e, g.subs(asymb, a) * f(T-time))
     return e
 
 
